@@ -109,11 +109,15 @@ SPEC = dict(
     coverage=_coverage,
     runs=dict(
         quick=[_bfs("bfs-depth2-full", 2),
-               dict(name="recycle-depth4", driver="c13_domx", extra_flags=_FLAGS, args=["--space", "recycle-depth4", "--alphabet", "recycle", "--depth", 4])],
+               dict(name="recycle-depth4", driver="c13_domx", extra_flags=_FLAGS, args=["--space", "recycle-depth4", "--alphabet", "recycle", "--depth", 4]),
+               # the document's ID table under attribute edits (setIdAttribute on/off, value changes, removal) with ID strings chosen to share / cross probe
+               # sequences of the 997-slot table: getElementById must keep answering as a reference map (space shared with C14)
+               dict(name="id-table-forced-collisions-depth4", driver="c14_viewx", extra_flags=["-fno-access-control"], args=["--space", "idtable", "--depth", 4])],
         thorough=[_fix("fixpoint-structural-b", "0,1,2,3,4,8,9", 360),     # doc, r, a, 'x', b, f, e
                   _fix("fixpoint-structural-k", "0,1,2,3,7,8,9", 180),     # doc, r, a, 'x', attribute k, f, e
                   _bfs("bfs-depth3", 3, reduce_last=True, deadline=840),
-                  dict(name="recycle-depth5", driver="c13_domx", extra_flags=_FLAGS, args=["--space", "recycle-depth5", "--alphabet", "recycle", "--depth", 5, "--deadline", 900])],
+                  dict(name="recycle-depth5", driver="c13_domx", extra_flags=_FLAGS, args=["--space", "recycle-depth5", "--alphabet", "recycle", "--depth", 5, "--deadline", 900]),
+                  dict(name="id-table-forced-collisions-depth5", driver="c14_viewx", extra_flags=["-fno-access-control"], args=["--space", "idtable", "--depth", 5])],
     ),
     manifest=dict(
         text="Every history of DOM Core calls up to the stated depth (and every reachable forest of the structural sub-alphabet) over the two-document universe was "
